@@ -205,6 +205,17 @@ def polyroots(ctx, coeffs, maxsteps=50, cleanup=True, extraprec=10,
                 elif abs(ctx._re(roots[i])) < tol:
                     roots[i] = roots[i].imag * 1j
         roots.sort(key=lambda x: (abs(ctx._im(x)), ctx._re(x)))
+        if all(not ctx._im(c) for c in coeffs):
+            # several pairs can share the same |im|: move each conjugate
+            # next to its partner
+            i = 0
+            while i < deg-1:
+                if ctx._im(roots[i]):
+                    c = ctx.conj(roots[i])
+                    j = min(range(i+1, deg), key=lambda k: abs(roots[k]-c))
+                    roots.insert(i+1, roots.pop(j))
+                    i += 1
+                i += 1
     if error:
         err = max(err)
         err = max(err, ctx.ldexp(1, -orig+1))
